@@ -2,7 +2,7 @@
 Monitor: (1) bytecode verifier (abstract interpretation written from the VM's semantics) over every code object the
 compiler emits for the corpus; (2) dynamic conformance via hook H2: actual (stack, block) depth before every executed
 instruction must be among the statically predicted ones and never exceed co_stacksize."""
-import os, re, glob
+import itertools, os, re, glob
 import common, progen
 from common import rng
 
@@ -33,6 +33,55 @@ def corpus(tier):
     for i in range(n // 5):
         src = progen.raw_program(r, maxdepth=r.choice([3, 4, 5]), nstmts=r.randrange(2, 5))
         cases.append({'id': 'raw:%d' % i, 'src': src, 'verify': True, 'feature': 'raw'})
+    # definition forms: what MAKE_FUNCTION / MAKE_CLOSURE / LOAD_BUILD_CLASS find on the stack - decorators x positional defaults x keyword-only
+    # defaults (with gaps) x annotations x closure x */** parameters x lambda, each in four contexts; every definition is also called
+    k = 0
+    pre = 'def v(x):\n    return x\ndef d(f):\n    return f\ndef dd(x):\n    return d\nz = 0\n'
+
+    def ind(t, n):
+        return ''.join('    ' * n + l + '\n' for l in t.split('\n') if l)
+    for ndec in (0, 1, 2):
+        for npos in (0, 1, 2):
+            for kwo in ((), (('k', 'v(5)'),), (('k', None), ('m', 'v(6)')), (('k', 'v(5)'), ('m', 'v(6)'))):
+                for ann in (False, True):
+                    for clo in (False, True):
+                        for star in ((False, False), (True, False), (False, True), (True, True)):
+                            k += 1
+                            if tier == 'quick' and k % 3:
+                                continue
+                            pos = [[('a', None)], [('a', None), ('b', 'v(2)')], [('a', 'v(1)'), ('b', 'v(2)')]][npos]
+
+                            def render(lam, first=None):
+                                out = [first] if first else []
+                                for n_, dflt in pos:
+                                    t = n_ + (': v(8)' if ann and not lam else '')
+                                    out.append(t + ((' = ' if ann and not lam else '=') + dflt if dflt else ''))
+                                if star[0]:
+                                    out.append('*s')
+                                elif kwo:
+                                    out.append('*')
+                                for n_, dflt in kwo:
+                                    out.append(n_ + ('=' + dflt if dflt else ''))
+                                if star[1]:
+                                    out.append('**kw')
+                                return ', '.join(out)
+                            decs = ''.join(['@d\n', '@dd(v(7))\n'][:ndec])
+                            need_k = any(dflt is None for _, dflt in kwo)
+                            args = '1' + (', k=2' if need_k else '')
+                            fn = decs + 'def f(%s)%s:\n    return %s\n' % (render(False), ' -> v(10)' if ann else '', '(a, z)' if clo else 'a')
+                            meth = decs + 'def f(%s)%s:\n    return %s\n' % (render(False, 'self'), ' -> v(10)' if ann else '', '(a, z)' if clo else 'a')
+                            lam = 'g = lambda %s: %s\n' % (render(True), '(a, z)' if clo else 'a')
+                            ctxs = [fn + lam + 'print(f(%s), g(%s))\n' % (args, args),
+                                    'def outer():\n    z = 1\n' + ind(fn + lam, 1) + '    return f(%s), g(%s)\nprint(outer())\n' % (args, args),
+                                    'class K:\n    z = 2\n' + ind(meth, 1) + 'print(K().f(%s))\n' % args,
+                                    'for i in range(2):\n    try:\n' + ind(fn + lam, 2) + '    finally:\n        print(f(%s), g(%s))\n' % (args, args)]
+                            cases.append({'id': 'deffx:%d' % k, 'src': pre + ctxs[k % 4], 'verify': True, 'feature': 'definition-forms'})
+    for k2, (decs, bases, kws) in enumerate(itertools.product(['', '@d\n', '@d\n@dd(v(1))\n'], ['', 'B', 'B, object'], ['', 'metaclass=M', 'metaclass=M, **{}'])):
+        hdr = ', '.join(x for x in (bases, kws) if x)
+        src = ('def v(x):\n    return x\ndef d(c):\n    return c\ndef dd(x):\n    return d\nclass B:\n    pass\nclass M(type):\n    pass\n'
+               'def outer():\n    q = 5\n' + ''.join('    ' + l + '\n' for l in (decs + 'class C%s:\n    w = v(3)\n    def m(self):\n        return q, __class__' % (('(' + hdr + ')') if hdr else '')).split('\n') if l) +
+               '    return C().m()[0]\nprint(outer())\n')
+        cases.append({'id': 'clsfx:%d' % k2, 'src': src, 'verify': True, 'feature': 'definition-forms'})
     # hand-written block-structure stressors: every exit kind through finally/with/loops, nested
     for i, src in enumerate(STRESS):
         cases.append({'id': 'stress:%d' % i, 'src': src, 'verify': True, 'feature': 'stress'})
